@@ -240,6 +240,7 @@ impl Property for C09 {
         let tests = if mutate { vec![] } else { gen_stable_tests(rng) };
         let mut find = FindScenario::new(spec, vec![]);
         find.gen_extras(rng, true);
+        find.starts_via_file = rng.chance(1, 10);
         let npaths = (find.tree.nodes.len() * starts.len() + 2) * 2;
         find.outcomes = if rng.chance(3, 4) { gen_outcomes(rng, npaths, true) } else { vec![] };
         // exit codes 126..254 are ordinary failures for find
